@@ -245,7 +245,8 @@ def run_case(case):
             return verdict
         # chain: kill the *resumed* run too, then restore again
         log2 = os.path.join(base, "log2")
-        a2 = dict(args, log=log2, start="restore", kill_at=case["second_kill_at"])
+        a2 = dict(args, log=log2, start="restore", kill_at=case["second_kill_at"],
+                  final_iteration=int(case["ref_final"]["iteration"]))
         rc2, err2 = _child(a2)
         L2 = _parse(log2)
         # saves of both runs share the directory: merge what each logged
@@ -276,7 +277,10 @@ def _site(case, L):
 def _judge(case, L, sv, D, base, w, c09):
     committed = max(L["committed"]) if L["committed"] else None
     where = f"{case['workload']} {case['kind']} kill_at={case.get('kill_at')} kill_after={case.get('kill_after')} at={case.get('at')} delay={case.get('delay')}"
-    res, err = c09.leg(dict(mode="resume", solver=sv, problem=PROBLEM, kw=w["kw"], dir=D, cap=CAP))
+    # a restored step equal to the uninterrupted run's final iteration is a *finished* run (policy
+    # iteration converges before the cap): it is compared directly, never continued (DESIGN C09 guards)
+    res, err = c09.leg(dict(mode="resume", solver=sv, problem=PROBLEM, kw=w["kw"], dir=D, cap=CAP,
+                            final_iteration=int(case["ref_final"]["iteration"])))
     if res is None:
         if committed is not None:
             return dict(status="violation", kind="not-restorable",
